@@ -16,12 +16,21 @@ def geometry(c):
     a.cyl = a.heads * a.sectors * 512
 
 
-def spec_padding(c, iso_size, cyl):
-    """(number of whole cylinders of the padded image, padding) from the statement:
-    'the image is padded to a whole number of cylinders'"""
+GPT_BACKUP_BYTES = 128 * 128 + 512      # the backup GPT: 128 partition entries and the header, written at the very end of the image
+
+
+def spec_padding(c, iso_size, cyl, efi=False):
+    """(number of whole cylinders of the padded image, padding) from the statement: 'the image is padded to a whole number of
+    cylinders and is otherwise an unchanged, valid ISO' - so with EFI the padding must also hold the backup GPT, which is written
+    at the end of the image: the SMALLEST padding that makes whole cylinders and, with EFI, is at least the backup GPT's size"""
     q, r = c.divmod(iso_size, cyl)
     pad = If(r == 0, 0, cyl - r)
     ncyl = If(r == 0, q, q + 1)
+    if efi:
+        # k further cylinders, k minimal (cyl is concrete wherever EFI is involved, so this stays linear)
+        k = c.int('extra_cylinders_for_the_backup_gpt', 0, 40)
+        c.assume(And(pad + k * cyl >= GPT_BACKUP_BYTES, Or(k == 0, pad + (k - 1) * cyl < GPT_BACKUP_BYTES)))
+        return ncyl + k, pad + k * cyl
     return ncyl, pad
 
 
@@ -55,19 +64,28 @@ class CalcCC(Base):
     """C12/cc: 0 <= pad < cyl, size+pad is a whole number of cylinders, cc = min(that number, 1024)"""
     target = IH + '._calc_cc'
     merge_ifs = False  # non-linear VC: two small paths are easier for the solver than one ite term
+    efi = False
+    geom = None        # (heads, sectors) concrete; None: symbolic geometry (without EFI)
 
     def setup(self, c):
         a = c.a
         geometry(c)
         a.size = c.int('iso_size', 0, MAX_ISO)
-        a.self = c.obj(IH, geometry_heads=a.heads, geometry_sectors=a.sectors)
-        a.ncyl, a.pad = spec_padding(c, a.size, a.cyl)
+        if self.geom is not None:
+            a.heads, a.sectors = self.geom
+            a.cyl = a.heads * a.sectors * 512
+        a.self = c.obj(IH, geometry_heads=a.heads, geometry_sectors=a.sectors, efi=self.efi)
+        a.ncyl, a.pad = spec_padding(c, a.size, a.cyl, self.efi)
         return Call([a.size], self_obj=a.self)
 
     def post(self, c, a, out):
         cc, pad = out.result
-        return {'padding': pad == a.pad, 'cylinders-capped-1024': cc == sx.Min(a.ncyl, 1024),
-                'pad-range': And(pad >= 0, pad < a.cyl)}
+        cl = {'padding': pad == a.pad, 'cylinders-capped-1024': cc == sx.Min(a.ncyl, 1024)}
+        if self.efi:
+            cl['pad-holds-the-backup-gpt-and-no-cylinder-more'] = And(pad >= GPT_BACKUP_BYTES, pad - a.cyl < GPT_BACKUP_BYTES)
+        else:
+            cl['pad-range'] = And(pad >= 0, pad < a.cyl)
+        return cl
 
 
 def le32(r, o):
@@ -100,7 +118,7 @@ class RecordMBR(Base):
             c.assume(a.f['part_entry'] != 2)
         if self.mac:
             c.assume(a.f['part_entry'] != 3)
-        a.ncyl, a.pad = spec_padding(c, a.size, a.cyl)
+        a.ncyl, a.pad = spec_padding(c, a.size, a.cyl, self.efi)
         # format limit: the padded image must be addressable with 32-bit 512-byte sector numbers
         c.assume(a.size + a.pad <= ((1 << 32) - 1) * 512)
         if self.efi:
@@ -152,13 +170,14 @@ class RecordPadding(Base):
     target = IH + '.record_padding'
     heads = 64
     sectors = 32
+    efi = False
 
     def setup(self, c):
         a = c.a
         a.size = c.int('iso_size', 0, 1 << 22)
-        a.self = c.obj(IH, _initialized=True, geometry_heads=self.heads, geometry_sectors=self.sectors)
+        a.self = c.obj(IH, _initialized=True, geometry_heads=self.heads, geometry_sectors=self.sectors, efi=self.efi)
         a.cyl = self.heads * self.sectors * 512
-        a.ncyl, a.pad = spec_padding(c, a.size, a.cyl)
+        a.ncyl, a.pad = spec_padding(c, a.size, a.cyl, self.efi)
         return Call([a.size], self_obj=a.self)
 
     def post(self, c, a, out):
@@ -344,7 +363,7 @@ class UpdateEfi(Base):
         a.sg = gpt_obj(c, 's_', False, n)
         a.self = c.obj(IH, _initialized=True, efi=True, mac=self.mac, geometry_heads=self.heads, geometry_sectors=self.sectors,
                        primary_gpt=a.pg, secondary_gpt=a.sg, efi_lba=0, efi_count=0)
-        a.ncyl, a.pad = spec_padding(c, a.size, a.cyl)
+        a.ncyl, a.pad = spec_padding(c, a.size, a.cyl, True)
         a.total512 = c.divmod(a.size + a.pad, 512)[0]   # 512-byte sectors of the cylinder-padded image
         a.iso512 = 4 * k                                   # 512-byte sectors of the ISO itself
         return Call([a.extent, a.count, a.size], self_obj=a.self)
@@ -625,3 +644,41 @@ class GPTRecordSecondary(GPTBase):
         cl.update(self.header_clauses(c, hdr, array, a.g, ''))
         cl.update(self.array_clauses(c, array, a.g, ''))
         return cl
+
+
+@contract
+class IsoHybridRoundTrip(Base):
+    """C05/RT for the hybrid MBR: parse(record(size)) recovers the state that record() wrote - in particular the geometry (heads,
+    sectors per track) that decides how the image is padded when it is mastered again -, for every geometry, partition offset and
+    image size, also beyond 256 and 1024 cylinders"""
+    target = IH + '.parse'
+    heads = 64
+    sectors = 32
+    label = 'isohybrid.IsoHybrid.parse+record'
+
+    def setup(self, c):
+        a = c.a
+        src = hyb_obj(c, geom=(self.heads, self.sectors))
+        a.size = c.int('iso_size', 2048, MAX_ISO)
+        if c.symbolic:
+            k = c.int('iso_sectors', 1, MAX_ISO // 2048)
+            c.assume(a.size == 2048 * k)
+        else:
+            c.assume(a.size % 2048 == 0)
+        c.assume(a.f['part_offset'] * 512 <= a.size)
+        ncyl, pad = spec_padding(c, a.size, a.cyl)
+        c.assume(a.size + pad <= ((1 << 32) - 1) * 512)
+        a.b = c.call(IH + '.record', src, a.size)
+        a.src = src
+        a.self = c.new(IH)
+        return Call([a.b], self_obj=a.self)
+
+    def post(self, c, a, out):
+        s, f = a.self, a.f
+        return {'recognised': Eq(out.result, True),
+                'geometry-recovered': And(s.geometry_heads == self.heads, s.geometry_sectors == self.sectors),
+                'fields-recovered': And(s.part_entry == f['part_entry'], s.part_offset == f['part_offset'], s.ptype == f['ptype'], s.rba == f['rba'],
+                                        s.mbr_id == f['mbr_id'], s.bhead == f['bhead'], s.bsect == f['bsect'], s.bcyle == f['bcyle'], s.ehead == f['ehead'])}
+
+    def observe(self, c, a, out):
+        return {'kind': out.kind, 'exc': out.exc, 'geom': [a.self.geometry_heads, a.self.geometry_sectors] if out.kind == 'return' else None}
